@@ -136,6 +136,33 @@ fn eff1(f: &[&str]) -> String {
             let plain = format!("{e:?}");
             let flagged = [format!("{e:14?}"), format!("{e:.3?}"), format!("{e:<9.0?}"), format!("{e:*^30.2?}")];
             let mut h = hex(plain.as_bytes());
+            // the iterator protocol: whatever was already consumed, every provided method agrees with
+            // stepping through `next()`
+            for k in 0..4usize {
+                let mut it = e.iter();
+                for _ in 0..k {
+                    it.next();
+                }
+                let rest: Vec<Effects> = {
+                    let mut c = it.clone();
+                    let mut v = Vec::new();
+                    while let Some(x) = c.next() {
+                        v.push(x);
+                    }
+                    v
+                };
+                let (lo, hi) = it.size_hint();
+                let ok = it.clone().count() == rest.len()
+                    && it.clone().last() == rest.last().copied()
+                    && it.clone().nth(1) == rest.get(1).copied()
+                    && it.clone().collect::<Vec<_>>() == rest
+                    && it.clone().fold(0u16, |a, x| a | bits(x)) == rest.iter().fold(0u16, |a, x| a | bits(*x))
+                    && lo <= rest.len()
+                    && hi.map_or(true, |h| h >= rest.len());
+                if !ok {
+                    h.push_str(&format!("!iter{k}"));
+                }
+            }
             for (i, x) in flagged.iter().enumerate() {
                 if *x != plain {
                     h.push_str(&format!("!flags{}:{}", i, hex(x.as_bytes())));
